@@ -117,3 +117,14 @@ PROPS['C17'] = {'units': ['C'], 'spec_tags': ['sess'], 'bounded': [],
     'level_text': "Proved for all picture sizes, chunk limits >= 1, both sources and every error placement, relative to an explicit model of an honest server: the result is byte-identical to the picture, carries the embedded picture's MIME type, falls back exactly when readpicture yields nothing or is unknown (code 5), "
                   "reports absence exactly when neither source has data, propagates every other error (`?`), issues requests at strictly increasing offsets and terminates (decreases clause)",
     'level_note': 'the environment model is an assumption (listed); concurrency with other callers is covered by C01 (each request gets its own reply)'}
+
+PROPS['C15'] = {'units': ['P', 'C'], 'spec_tags': ['tok'], 'bounded': ['cmddiff'],
+    'trusted': [TRUSTED_TOK, TRUSTED_BYTES, TRUSTED_STD,
+                "oracle: per-command expectation table written from the MPD protocol reference (replay/src/bin/cmd_diff.rs), position-set meaning of a:b / a: ranges",
+                "vstd's specification of RangeBounds for the std range types; for a generic range the spec functions are tied to start_bound/end_bound by N10 wrappers (definitional)",
+                'strings without a blank that contain a quote or backslash are excluded from the differential run (C06 known finding); Move::range with an open end, TagTypes with an empty list and strings with LF/NUL panic by documentation and are excluded'],
+    'category': 'exploration',
+    'level_text': "PROVED only for the range mechanism: SongRange::new_usize denotes exactly the positions of the Rust range for every RangeBounds value (saturating at usize::MAX), and the command builder it feeds (C06/C07 contracts). "
+                  "The per-command table itself (58 commands, 125 constructor/builder paths) is macro- and fmt-heavy code that was not brought under contract in the time available: it is decided by a BOUNDED differential run against an expectation table",
+    'level_note': 'bounded (cmddiff) for the command table, proof for range normalisation; never counted as proved beyond the functions under contract',
+    'technique': 'contract-based deductive verification (Verus) of the range normalisation; bounded differential execution of the real command builders against an expectation table for the rest'}
